@@ -4,7 +4,7 @@ queue refuses the push that would exceed its capacity; ring cursors are stored o
 Sequence equality with Vec/VecDeque and drop counts are NOT decided."""
 from vlib import fixtures
 from props import _refusal_common as rc
-from rules import wrap, shrink, order, parallel, sibling
+from rules import wrap, shrink, order, parallel, sibling, linear
 from vlib.mir import Fn
 from vlib.run import Broken
 
@@ -18,7 +18,7 @@ FILES = ['src/containers/fast_vec.rs', 'src/containers/specialized/valvec32.rs',
 def run(ctx):
     fx = ctx.facts("default")
     order.use_facts(fx)
-    fixtures.run(ctx, ['state', 'taint', 'wrap', 'emptyrange', 'clear', 'batch'])
+    fixtures.run(ctx, ['state', 'taint', 'wrap', 'emptyrange', 'clear', 'batch', 'rangedep'])
     # ring cursors are only ever stored wrapped; drop loops of shrinking operations are not empty by construction
     wrap.run(ctx, fx, 'src/containers/specialized/circular_queue.rs', 'containers::specialized::circular_queue::AutoGrowCircularQueue')
     ctx.floor('R-WRAP.stores', 5)
@@ -30,6 +30,9 @@ def run(ctx):
     sibling.batch_effects(ctx, fx, FILES, pairs=(("push_back", "push_bulk"), ("pop_front", "pop_bulk"), ("push", "push_n_copy"),
                                                  ("push", "extend_from_slice")))
     ctx.floor('R-SIBLING.batch.pairs', 3)
+    # the bump carve reserves what it hands out: end computed from the aligned start
+    ctx.instance('R-RANGE.dep.pairs', linear.end_from_start(ctx, fx, 'memory::bump::BumpAllocator::bump_range'))
+    ctx.floor('R-RANGE.dep.pairs', 1)
     # MmapVec grows by re-reading its file: the live mapping is written back first, unconditionally
     rec = fx.raw('memory::mmap_vec::MmapVec::<T>::resize_to_capacity')
     if rec is None:
